@@ -481,9 +481,40 @@ def r10_binary_chains(ctx, rule="C10.R10"):
     if len(fns) != 1:
         raise CheckError("anchor binary_expr: %d matches" % len(fns))
     fn = fns[0]
+    # the function the expression parser calls: binary_expr itself, or the one wrapper around it
+    below = prog.reachable_from([fn.id])
+    outer = [prog.fns[c] for c in prog.callers().get(fn.id, ()) if c not in below and c in prog.fns]
+    wrappers = [g for g in outer if g.impl and g.impl.get("self_ty") == fn.impl.get("self_ty") and g.kind != "closure"]
+    def param_order(g):
+        order = []
+        for i in range(1, g.argc + 1):
+            ty = g.body.locals[i]["ty"]
+            if ty.endswith("::Operator"):
+                order.append("op")
+            elif "Positioned<" in ty:
+                order.append("l" if "l" not in order else "r")
+            else:
+                order.append("pos")
+        return order
+    # a wrapper takes what binary_expr takes (two operands, the operator, the position), in any order
+    wrappers = [g for g in wrappers if sorted(param_order(g)) == ["l", "op", "pos", "r"]]
+    entry, order = fn, param_order(fn)
+    if order != ["l", "op", "r", "pos"]:
+        raise CheckError("%s: parameters of binary_expr not understood (%s)" % (rule, order))
+    if len(wrappers) == 1:
+        entry = wrappers[0]
+        order = param_order(entry)
+    elif wrappers:
+        raise CheckError("%s: binary_expr is reached through several wrappers %s" % (rule, [g.name for g in wrappers]))
 
-    def leaf():
-        return eng.make(POS, "Positioned", {0: eng.make(EXPR, "IntegerLiteral")})
+    def call(l, op, r):
+        a = {"l": l, "op": tf.Tag(OP, op), "r": r, "pos": tf.TOP}
+        return eng.summary(entry, tuple(a[k] for k in order))
+
+    def leaf(kind="IntegerLiteral"):
+        if kind == "Parenthesis":
+            return eng.make(POS, "Positioned", {0: eng.make(EXPR, "Parenthesis", {0: leaf()})})
+        return eng.make(POS, "Positioned", {0: eng.make(EXPR, kind)})
 
     reps = {}
     for op, r in sorted(RANK.items()):
@@ -493,14 +524,14 @@ def r10_binary_chains(ctx, rule="C10.R10"):
     n = 0
     bad = 0
 
-    def build(ops):
+    def build(ops, kinds=None):
         """x ops[0] (x ops[1] (...)) as the parser builds it: right side first"""
         if not ops:
-            return [leaf()]
-        rights = build(ops[1:])
+            return [leaf(kinds[-1] if kinds else "IntegerLiteral")]
+        rights = build(ops[1:], kinds)
         out = []
         for r in rights:
-            out.extend(eng.summary(fn, (leaf(), tf.Tag(OP, ops[0]), r, tf.TOP)))
+            out.extend(call(leaf(kinds[len(kinds) - len(ops) - 1] if kinds else "IntegerLiteral"), ops[0], r))
         return out
 
     import itertools
@@ -521,7 +552,27 @@ def r10_binary_chains(ctx, rule="C10.R10"):
             ctx.violation(rule, key, fn.loc, "`x %s x` is built as %s, the ranks prescribe %s" % (" x ".join(ops), got, want))
         else:
             ctx.ok(rule, key, fn.loc, want)
-    ctx.analysed_units(rule, chains=n, levels=ops_all)
+    # the kind of an operand does not change the grouping: `(a) * b + c` groups like `a * b + c`.  Every chain of
+    # two operators with every choice of plain / parenthesised / call operands
+    leaf_kinds = ("IntegerLiteral", "Parenthesis", "FunctionCall", "Variable")
+    m = 0
+    for ops in itertools.product(ops_all, repeat=2):
+        for kinds in itertools.product(leaf_kinds if ctx.tier == "thorough" else leaf_kinds[:2], repeat=3):
+            if all(k == "IntegerLiteral" for k in kinds):
+                continue
+            m += 1
+            got = sorted({_tree(r) for r in build(list(ops), list(kinds))})
+            want = _expected_chain(list(ops))
+            key = "%s:%s:%s" % (rule, ",".join(ops), ",".join(k[:3] for k in kinds))
+            if any("?" in g for g in got) or not got:
+                ctx.unknown(rule, key, entry.loc, "abstract result %s" % got)
+            elif sorted({_canon(g) for g in got}) != [_canon(want)]:
+                ctx.violation(rule, key, entry.loc, "`x %s x` with operands of kinds %s is built as %s, the ranks prescribe %s: "
+                              "the kind of an operand (`(1 + 2) * 3 + 4`) changes how the operators around it are grouped"
+                              % (" x ".join(ops), list(kinds), got, want))
+            else:
+                ctx.ok(rule, key, entry.loc, want)
+    ctx.analysed_units(rule, chains=n, operand_kind_chains=m, levels=ops_all, entry=entry.path)
     ctx.require(rule, 100)
 
 
